@@ -19,7 +19,7 @@ RULE = ('tied-constant templates -- one constant tensor with 2-4 consumers, 2-3 
         'monitor saw one content per buffer.  distinct by (sharing kind, k, settings tuple); non-trivial iff the sharers get at least two '
         'different settings or at least one quantizing setting')
 ASSUMPTIONS = ['a raise is an acceptable outcome', 'float16 sharers: |fp16(x)-x| <= 2^-10|x| + 6e-8 counts as "within one step"']
-SETTINGS = [None, 'noq', 'wo8a_cw', 'wo8s_tw', 'wo4s_cw', 'drq8_cw', 'drq8_tw', 'drq4_cw', 'srq8a_cw', 'srq8a_tw', 'srq16_cw', 'fp16']
+SETTINGS = [None, 'noq', 'wo8a_cw', 'wo8s_tw', 'wo8s_cw', 'wo4s_cw', 'drq8_cw', 'drq8_tw', 'drq4_cw', 'srq8a_cw', 'srq8a_tw', 'srq16_cw', 'fp16']
 
 
 def plan(tier):
@@ -71,10 +71,29 @@ def build(rng, kind, k):
         arr = g.w((5, 6), 0.5)
         buf = b.new_buffer(arr)
       w = g.const('tied_w', arr, buffer=buf)
+      if i and rng.random() < 0.5:
+        x = g.tanh(x)          # the consuming operator sits at another position than in subgraph 0
       y = g.fc(x, 5, w=w, bias=bool(rng.random() < 0.5))
       consumers.append(('FULLY_CONNECTED', g.sg.tensors[y].name.decode()))
       g.finish([g.tanh(y)] if rng.random() < 0.5 else [y], f'sig{i}')
       graphs.append(g)
+  elif kind == 'mixed_dtype_buffer':
+    # the converter de-duplicates constant buffers by content: an all-zero float32 weight (a LoRA B matrix at initialisation) and
+    # all-zero int32 slice offsets of the same byte length end up in ONE buffer
+    g = models.G(b, 'main', 'm/', rng)
+    x = g.inp((2, 2))
+    buf = b.new_buffer(np.zeros(2, dtype=np.int32))
+    bt = g.const('ss_begin', np.zeros(2, dtype=np.int32), buffer=buf)
+    et = g.const('ss_end', np.array([2, 2], dtype=np.int32))
+    st = g.const('ss_strides', np.array([1, 1], dtype=np.int32))
+    t = g.act('strided_slice', (2, 2))
+    g.op(models.BO.STRIDED_SLICE, [x, bt, et, st], [t], models.S.StridedSliceOptionsT(), models.S.BuiltinOptions.StridedSliceOptions)
+    w0 = g.const('lora_b_w', np.zeros((1, 2), dtype=np.float32), buffer=buf)
+    y0 = g.fc(t, 1, w=w0, bias=False)
+    y1 = g.fc(t, 3)
+    consumers = [('FULLY_CONNECTED', g.sg.tensors[y0].name.decode()), ('FULLY_CONNECTED', g.sg.tensors[y1].name.decode())][:max(2, k)]
+    g.finish([y0, y1], 'serving_default')
+    graphs.append(g)
   else:  # tied_embedding
     g = models.G(b, 'main', 'm/', rng)
     vocab, dim = 7, 4
@@ -120,7 +139,16 @@ def check_returned(ctx, spec, src, out, base):
                       dict(base, tensor=t.name.decode(), stored=len(raw), implied=decode.expected_nbytes(t)))
     if len(lst) > 1:
       ctx.count('shared_buffers_checked')
-      if len(sigs) > 1:
+      def untouched(si, ti, t):
+        """The sharer is exactly what the input model had (the converter may tie tensors of different dtypes whose BYTES coincide)."""
+        if si >= len(ms.subgraphs) or ti >= len(ms.subgraphs[si].tensors):
+          return False
+        t0 = ms.subgraphs[si].tensors[ti]
+        return (t0.type == t.type and decode.qparams(t) is None and decode.raw(ms.buffers[t0.buffer]) is not None
+                and bytes(decode.raw(ms.buffers[t0.buffer])) == bytes(raw))
+      if len(sigs) > 1 and all(untouched(si, ti, t) for si, ti, t in lst):
+        ctx.count('mixed_dtype_sharers_left_untouched')
+      elif len(sigs) > 1:
         ctx.violation('sharers_disagree', {'dtypes': sorted(decode.TYPE_NAME.get(s[0]) for s in sigs)}, dict(base, buffer=bi))
   # ---- per consumer of a SHARED constant: actual operand decodes to the source constant
   buf_refs = {}
@@ -200,8 +228,8 @@ def check_returned(ctx, spec, src, out, base):
 
 
 def run_case(ctx, case, rng):
-  kind = ['same_tensor', 'same_buffer', 'across_subgraphs', 'tied_embedding'][case % 4]
-  k = 2 if kind == 'tied_embedding' else int(rng.integers(2, 5 if kind == 'same_tensor' else 4))
+  kind = (['same_tensor', 'same_buffer', 'across_subgraphs', 'tied_embedding'] * 3 + ['mixed_dtype_buffer'])[case % 13]
+  k = 2 if kind in ('tied_embedding', 'mixed_dtype_buffer') else int(rng.integers(2, 5 if kind == 'same_tensor' else 4))
   spec, consumers = build(rng, kind, k)
   datasets = common.make_data(rng, spec)
   ok, why = common.admit(spec, datasets)
@@ -209,9 +237,16 @@ def run_case(ctx, case, rng):
     return {'outcome': 'skipped', 'reason': 'generator_reject ' + why[:60]}
   src = models.read(spec.content)
   for _ in range(3):
-    if rng.random() < 0.3:
+    r0 = rng.random()
+    if r0 < 0.25:
       s0 = SETTINGS[int(rng.integers(1, len(SETTINGS)))]
       settings = [s0] * k
+    elif r0 < 0.5:
+      # same stored weights, different compute mode per sharer (dynamic-range here, weight-only there): the one combination in
+      # which sharers with DIFFERENT settings may legitimately share quantized bytes
+      fam = recipes.SAME_WEIGHT_FAMILIES[int(rng.integers(len(recipes.SAME_WEIGHT_FAMILIES)))]
+      settings = [fam[int(rng.integers(2))] for _ in range(k)]
+      ctx.count('same_weights_mixed_modes_assignments')
     else:
       settings = [SETTINGS[int(rng.integers(len(SETTINGS)))] for _ in range(k)]
     qt = aeq.Quantizer(spec.content)
